@@ -25,6 +25,9 @@ class SymKernel(BaseKernel):
         self.input_names = []
         self._seen = set()
         self._assumed = set()
+        # float()/int() of a symbolic number inside the repository's modules give the number itself, in every obligation (module
+        # state is restored before each path, so this is re-installed here)
+        self.install_tokens()
 
     # ---- inputs
     def _var(self, name, kind="real"):
@@ -480,6 +483,7 @@ def run_symbolic(fn, repo, eager=False, cert_backends=("z3",), max_paths=MAX_PAT
     """Execute fn(k) on every feasible control path.  Returns a result dict (JSON-able except 'certs')."""
     work = [[]]
     paths = []
+    n_failing_paths = 0
     n_certs = 0
     notes = []
     status = "proved"
@@ -488,7 +492,9 @@ def run_symbolic(fn, repo, eager=False, cert_backends=("z3",), max_paths=MAX_PAT
     while work:
         trail = work.pop()
         if len(paths) >= max_paths:
-            status = "unknown"
+            # a goal that failed on an explored path stays failed (the path is feasible and real); only "proved" becomes "unknown"
+            if status not in ("failed", "checker-error"):
+                status = "unknown"
             notes.append("path limit %d reached" % max_paths)
             break
         st = S.new_state()
@@ -527,10 +533,18 @@ def run_symbolic(fn, repo, eager=False, cert_backends=("z3",), max_paths=MAX_PAT
         except RecursionError as e:
             rec["unsupported"] = "recursion: %s" % e
             status = "unknown" if status != "failed" else status
-        except TimeoutError:
+        except TimeoutError as e:
+            # the budget ran out in the middle of a path: goals that FAILED on completed paths stand (those paths are feasible and
+            # were fully executed); otherwise the obligation is undecided
+            if status == "failed" and paths:
+                notes.append("%s; stopped with %d path(s) explored, of which some failed" % (e, len(paths)))
+                break
             raise
         except Exception as e:      # noqa: BLE001
             if "TimeoutError: obligation exceeded its time budget" in str(e):
+                if status == "failed" and paths:
+                    notes.append("time budget exceeded; stopped with %d path(s) explored, of which some failed" % len(paths))
+                    break
                 raise TimeoutError(str(e))
             # an exception raised BY THE REPOSITORY CODE (innermost frame in the repository tree) where the obligation
             # expected a normal return is an observation (failed goal); anything else is a checker error
@@ -564,4 +578,10 @@ def run_symbolic(fn, repo, eager=False, cert_backends=("z3",), max_paths=MAX_PAT
                 status = "unknown"
         paths.append(rec)
         work.extend(st.work)
+        if any(g["status"] == "failed" for g in k.goals):
+            n_failing_paths += 1
+            if n_failing_paths >= 3 and work:
+                # the verdict cannot change any more: do not spend the budget on the remaining control paths
+                notes.append("stopped after %d failing control paths (%d paths not explored)" % (n_failing_paths, len(work)))
+                break
     return {"status": status, "paths": paths, "n_certs": n_certs, "wall_s": round(time.time() - t0, 3), "notes": notes, "inputs": inputs}
